@@ -28,6 +28,7 @@ ROUTES = CONV_ROUTES + METRIC_ROUTES + EST_ROUTES
 BRANCH_CUT_ROUTES = {"Tilt/quaternion", "Tilt/angles", "Tilt/acc-only", "am2angles", "to_angles", "AQUA/am/NED", "AQUA/am/ENU", "AQUA/acc/NED", "FQA", "SAAM/quaternion"}
 REGIONS = {"rows:generic": 30, "rows:special": 30, "rows:one": 30, "metric:generic": 30, "metric:close": 30, "metric:exact": 30, "est:generic": 30, "est:one": 30, "est:scaled": 30,
            "rows:integer": 20, "est:integer": 20}
+REGIONS_FIXED = {"long": 1}
 PROBES = [("ahrs.common.quaternion", "QuaternionArray.to_DCM"), ("ahrs.common.quaternion", "QuaternionArray.from_DCM"),
           ("ahrs.common.quaternion", "QuaternionArray.from_rpy"), ("ahrs.common.quaternion", "QuaternionArray.to_angles"),
           ("ahrs.common.orientation", "hughes"), ("ahrs.common.orientation", "chiaverini"), ("ahrs.common.orientation", "q2R"),
@@ -131,6 +132,8 @@ def generate(rng, tier, shard, nshards):
         yield Case("rows", "rows:integer", Q=Q, angles=ang, V=V, a=a, m=m)
         a, m = integer_am(rng, N)
         yield Case("est", "est:integer", a=a, m=m, dip=float(rng.choice([0.0, 30.0, -45.0, 60.0, 66.0])), seed=int(rng.integers(2**31)))
+    if shard == 0:      # one long array per run
+        yield Case("long", "long", N=20000 if tier == "quick" else 60000, seed=int(rng.integers(2**31)))
     for i in range(n):
         reg = ["est:generic", "est:one", "est:scaled"][i % 3]
         N = 1 if reg == "est:one" else [2, 3, 4, 6, 3, 5][(i // 3) % 6]
@@ -399,5 +402,55 @@ def check_est(case, ctx):
             cmp_rows(ctx, name, type(ob)(ob.ok, B, ob.exc, ob.where), [call(lambda x=x: x) for x in os_.value], TOL_EST)
 
 
+def check_long(case, ctx):
+    """One long array through the vectorised entry points: sampled rows equal the single-item results, and the traced peak memory grows with N, not N^2
+    (below 8 kB per row: an N x N intermediate would need gigabytes for a ten-minute recording and a MemoryError on an ordinary machine)."""
+    import tracemalloc
+    import ahrs
+    from ahrs.common import orientation as o
+    F = ahrs.filters
+    N = int(case.p["N"])
+    r_ = np.random.Generator(np.random.PCG64(int(case.p["seed"])))
+    Q = r_.standard_normal((N, 4))
+    Q /= np.linalg.norm(Q, axis=1)[:, None]
+    ang = np.c_[r_.uniform(-np.pi, np.pi, N), r_.uniform(-1.5, 1.5, N), r_.uniform(-np.pi, np.pi, N)]
+    a = r_.standard_normal((N, 3)) * 9.0
+    m = r_.standard_normal((N, 3)) * 40.0
+    pick = r_.integers(0, N, 12)
+    Qn, QA = ahrs.Quaternion, ahrs.QuaternionArray
+    R3 = None
+    routes = [("to_DCM", lambda: QA(Q.copy()).to_DCM(), lambda i: Qn(Q[i].copy()).to_DCM()),
+              ("conjugate", lambda: QA(Q.copy()).conjugate(), lambda i: Qn(Q[i].copy()).conjugate),
+              ("to_angles", lambda: QA(Q.copy()).to_angles(), lambda i: Qn(Q[i].copy()).to_angles()),
+              ("from_rpy", lambda: np.asarray(QA(rpy=ang.copy())), lambda i: np.asarray(Qn(rpy=ang[i].copy()))),
+              ("q2R.v1", lambda: o.q2R(Q.copy()), lambda i: o.q2R(Q[i].copy())),
+              ("Tilt/quaternion", lambda: F.Tilt(a.copy(), m.copy()).Q, lambda i: F.Tilt().estimate(a[i].copy(), m[i].copy())),
+              ("SAAM/quaternion", lambda: F.SAAM(a.copy(), m.copy()).Q, lambda i: F.SAAM().estimate(a[i].copy(), m[i].copy()))]
+    for name, batch, single in routes:
+        tracemalloc.start()
+        ob = call(batch)
+        peak = tracemalloc.get_traced_memory()[1]
+        tracemalloc.stop()
+        if not ctx.returned(ob, clause="no-exception[%d rows]" % N, route=name):
+            continue
+        B = np.asarray(ob.value)
+        if not ctx.ok("a long array gives one row per item", B.dtype != object and len(B) == N, {"shape": list(B.shape), "N": N}, route=name):
+            continue
+        worst = 0.0
+        for i in pick:
+            so = call(single, int(i))
+            if not so.ok:
+                continue
+            s_, b_ = np.asarray(so.value, float), np.asarray(B[i], float)
+            if s_.shape != b_.shape or not (np.all(np.isfinite(s_)) and np.all(np.isfinite(b_))):
+                continue
+            d_ = float(np.abs(s_ - b_).max())
+            if name in BRANCH_CUT_ROUTES and s_.shape == (4,):
+                d_ = min(d_, float(np.abs(s_ + b_).max()))
+            worst = max(worst, d_)
+        ctx.le("sampled rows of a long array equal the single-item results", worst, 1e-9, {"N": N}, route=name)
+        ctx.le("traced peak memory of an N-row call stays below 8 kB per row (linear in N)", peak / float(N), 8192.0, {"N": N, "peak_bytes": int(peak)}, route=name)
+
+
 def check(case, ctx):
-    {"rows": check_rows, "metric": check_metric, "est": check_est}[case.route](case, ctx)
+    {"rows": check_rows, "metric": check_metric, "est": check_est, "long": check_long}[case.route](case, ctx)
